@@ -933,7 +933,7 @@ func Run(c *core.Ctx, replay string) (*core.Result, error) {
 		opList = append(opList, fmt.Sprintf("%s:%d", k, n))
 	}
 	sort.Strings(opList)
-	for _, need := range []string{"Query", "Insert", "InsertMany", "Update", "Select", "SelectMany", "SelectAll", "DeleteById", "DeleteByIDs", "SelectByFK", "DeleteByFK", "Delete"} {
+	for _, need := range []string{"Query", "Insert", "InsertMany", "Update", "Select", "SelectMany", "SelectAll", "DeleteById", "DeleteByIDs", "SelectByFK", "DeleteByFK", "Delete", "SelectByUniqueFK", "SelectByUnique", "SelectByKeys", "DeleteByKeys"} {
 		if ops[need] == 0 && replay == "" && ran > 0 {
 			return nil, core.Inconcl("operation %s was never exercised", need)
 		}
